@@ -21,7 +21,7 @@ RULE = ('generated specs with Omitted(c) / RedactedBlot / RedactedHash (with and
 ASSUMPTIONS = ['Redactors are only placed where the language allows them (string / numeric leaves, '
                'aliases of those, containers of those).']
 
-C13_CFG = dict(omitted=True, annot_bias=True, schema=None, routes=True, max_ns=2, max_types=6,
+C13_CFG = dict(omitted=True, annot_bias=True, redact_map_bias=True, schema=None, routes=True, max_ns=2, max_types=6,
                examples=False, custom_annotations=False, max_routes=2)
 
 
